@@ -322,7 +322,15 @@ impl Interval {
         } else {
             let stride = match (self.stride, other.stride) {
                 (0, _) => other.stride,
-                (_, 0) => self.stride << other.bytesize().as_bit_length(),
+                (_, 0) => {
+                    // the shifted stride may not be representable as `u64`
+                    let shift = other.bytesize().as_bit_length() as u32;
+                    if shift < u64::BITS && self.stride.leading_zeros() >= shift {
+                        self.stride << shift
+                    } else {
+                        1
+                    }
+                }
                 _ => 1u64 << other.stride.trailing_zeros(),
             };
             Interval {
